@@ -19,6 +19,7 @@ import (
 	"math"
 	"os"
 	"path/filepath"
+	"regexp"
 	"sort"
 	"strconv"
 	"strings"
@@ -285,6 +286,8 @@ func c14NonSingular(cell *c14Cell) []string {
 
 // ---- comparison ----------------------------------------------------------
 
+var c14PosRe = regexp.MustCompile(`:([0-9]+): `)
+
 func c14NormWarn(ws []string) []string {
 	var out []string
 	for _, w := range ws {
@@ -411,7 +414,27 @@ func c14Check(cs c14Case) *kit.Fail {
 		return kit.Failf("csv-shape", "cannot interpret csv output: %v\nargs %q\n%s\nstderr:\n%s", perr, args, out.String(), errOut.String())
 	}
 	if len(parsed.OtherStderr) > 0 {
-		return kit.Failf("unexpected-stderr", "unexpected stderr lines %q (args %q)", parsed.OtherStderr, args)
+		// Unit lines that contradict earlier metadata are complained about,
+		// once per reading, with their position; whether and how is C02's
+		// subject. Anything else on stderr is unexpected.
+		want := map[int]int{}
+		for _, ln := range c.ConflictLines() {
+			want[ln]++
+		}
+		var other []string
+		for _, l := range parsed.OtherStderr {
+			m := c14PosRe.FindStringSubmatch(l)
+			ln, _ := strconv.Atoi(append(m, "", "")[1])
+			if m != nil && want[ln] > 0 {
+				want[ln]--
+				kit.Count("reader complaints about contradicting Unit lines (tolerated, positioned)", 1)
+				continue
+			}
+			other = append(other, l)
+		}
+		if len(other) > 0 {
+			return kit.Failf("unexpected-stderr", "unexpected stderr lines %q (args %q)", other, args)
+		}
 	}
 	ex := c14Expected(c, labels)
 	thr := benchmath.DefaultThresholds
